@@ -107,6 +107,8 @@ type observed struct {
 	nonRect           bool // a malformed raw range with First <= Last as byte strings
 	reversed          bool // a malformed raw range with First > Last as byte strings
 	extractRejected   bool // Extract refused the file (reversed ranges only)
+	hugeRawRange      bool // a raw cidrange with more codes than can be enumerated
+	hugeBeyondCap     bool // ... probed at a position above math.MaxInt32
 }
 
 func toLib(s cmapmodel.Set) charcode.CodeSpaceRange {
